@@ -135,6 +135,9 @@ def trace_task(task):
                                             max_count=max(s["count"] for s in summ.values())))
                 # ---------------- topology report + archive
                 top = [None, 1, 2, 3][c % 4]
+                if desc.get("long"):
+                    # many topologies (two- and three-digit ranks): cuts below, at and above ten and a hundred
+                    top = [2, 9, 10, 11, 25, 100, 101, 5][(c // 8 + task["shard"]) % 8]
                 rep, arc = os.path.join(tmp, "rep.tsv"), os.path.join(tmp, "arc.tar.gz")
                 if top is None:
                     write_topology_report(path, rep, topologies_archive=arc)
